@@ -503,6 +503,14 @@ class ScriptRun:
             self.fail("monitor", monitor="exception-escaped", line=line, detail=exp[1] + " (fresh session)")
             return
         await W.spin(8)
+        # the served pool got its call a few loop iterations before the twin: a long chain of short tasks (`apply -n 7` of a
+        # worker that returns at once in a pool of size 1) is still under way on both after a fixed number of iterations, at
+        # different points - let both run until neither moves any more (tasks waiting for the environment stay where they are)
+        for _ in range(40):
+            snap = (observe_quiet(self.pool), observe_quiet(self.twin))
+            await W.spin(4)
+            if (observe_quiet(self.pool), observe_quiet(self.twin)) == snap:
+                break
         pending_real = not replies
         pending_exp = isinstance(exp, W.Pending)
         if len(replies) > 1:
